@@ -216,8 +216,7 @@ def build_optimized_pattern(choices: list[ChoiceChoice], repeat: str = "") -> st
 
     char_class_parts: list[str] = []  # for single-char literals
     ranges: list[tuple[str, str]] = []  # for character ranges
-    multi_sensitive: list[str] = []  # for multi-char sensitive literals
-    insensitive_parts: list[str] = []  # for insensitive literals (scoped flag)
+    multi_parts: list[str] = []  # for multi-char literals, in choice order
     unicode_props: list[str] = []  # for UnicodeProperty patterns
 
     for choice in choices:
@@ -228,21 +227,19 @@ def build_optimized_pattern(choices: list[ChoiceChoice], repeat: str = "") -> st
                 char_class_parts.append(val.upper())
                 char_class_parts.append(val.lower())
             case ChoiceLiteral(value=val, case=ChoiceCase.INSENSITIVE):
-                insensitive_parts.append(f"(?i:{re.escape(val)})")
+                multi_parts.append(f"(?i:{re.escape(val)})")
             case ChoiceLiteral(value=val, case=ChoiceCase.SENSITIVE) if len(val) == 1:
                 char_class_parts.append(val)
             case ChoiceLiteral(value=val, case=ChoiceCase.SENSITIVE):
-                multi_sensitive.append(re.escape(val))
+                multi_parts.append(re.escape(val))
             case ChoiceRange(start, end):
                 ranges.append((start, end))
             case _:
                 raise ValueError(f"Unrecognized choice: {choice}")
 
     parts: list[str] = []
-    if multi_sensitive:
-        parts.extend(multi_sensitive)
-    if insensitive_parts:
-        parts.extend(insensitive_parts)
+    if multi_parts:
+        parts.extend(multi_parts)
     if unicode_props:
         parts.extend(unicode_props)
     if char_class_parts or ranges:
